@@ -1,5 +1,6 @@
-(* Proofs/SelectProofs.v -- SELECT statements whose field definitions do not themselves use
-   field names: build_check (Parse + call validation) against Spec/Typing.v [select_typed]. *)
+(* Proofs/SelectProofs.v -- SELECT statements, field definitions that use other fields (defined
+   before or after them) included: build_check (resolveFieldNames + Parse's checks + call
+   validation) against Spec/Typing.v [select_typed]. *)
 From Coq Require Import List String ZArith Bool Arith Lia.
 Import ListNotations.
 From KV Require Import Base.Bytes Base.Num Model.Ast Model.Value Model.Eval Model.Checker
@@ -23,6 +24,23 @@ Fixpoint names_of (e : expr) : list string :=
 (* field definitions that use no field names *)
 Definition fields_plain (fields : list (string * expr)) : Prop :=
   Forall (fun nf => names_of (snd nf) = []) fields.
+
+(* The references between fields are acyclic -- what SelectStmt.checkFieldCycles establishes
+   before anything is resolved: the fields can be ranked so that a definition only uses field
+   names of smaller rank (the rank of a field = the length of the longest chain of references
+   leaving it; a chain never visits a field twice, so ranks stay below the number of fields).
+   A name defined twice means its first definition, as everywhere. *)
+Definition fields_ranked (fields : list (string * expr)) : Prop :=
+  exists rank : string -> nat,
+    (forall s d, get_named fields s = Some d -> rank s < List.length fields) /\
+    (forall s d s', get_named fields s = Some d -> In s' (names_of d) ->
+                    get_named fields s' <> None -> rank s' < rank s).
+
+(* No field definition is a bare field name: `zq1 as zq0` is never resolved by the Go code (the
+   field stands for the text "zq1", C05's subject), whereas the typing rules read a name that AS
+   defines as its definition. *)
+Definition fields_no_bare (fields : list (string * expr)) : Prop :=
+  Forall (fun nf => match snd nf with EName _ s => get_named fields s = None | _ => True end) fields.
 
 Section Sel.
 Variable fo : fops.
@@ -257,59 +275,82 @@ Qed.
 
 End Agree.
 
-(* ---------------------------------------------------------------- Check leaves a name-free
-   tree unchanged, whatever the CheckCtx *)
-Lemma rw_plain : forall names e, names_of e = [] -> rewrite_name names e = e.
-Proof. intros names e H. destruct e; try reflexivity. discriminate H. Qed.
-
-Lemma app_nil_both : forall {A} (a b : list A), (a ++ b)%list = [] -> a = [] /\ b = [].
-Proof. intros A a b H. destruct a; [auto | discriminate H]. Qed.
-
-Lemma check_list_plain : forall ctx l,
-  Forall (fun e => names_of e = [] -> forall e1, check ctx e = Ok e1 -> e1 = e) l ->
-  flat_map names_of l = [] ->
-  forall l2, check_list fo ctx l = Ok l2 -> l2 = l.
+(* ---------------------------------------------------------------- Check returns the tree
+   resolveFieldNames builds *)
+Lemma check_list_resolve : forall ctx l,
+  Forall (fun e => forall e1, check ctx e = Ok e1 -> e1 = resolve (c_names ctx) e) l ->
+  forall l2, check_list fo ctx l = Ok l2 ->
+  l2 = map (fun a => rewrite_name (c_names ctx) (resolve (c_names ctx) a)) l.
 Proof.
-  induction 1 as [|x l Hx _ IH]; intros Hn l2 H0; cbn [check_list] in H0.
+  induction 1 as [|x l Hx _ IH]; intros l2 H0; cbn [check_list] in H0.
   - inversion H0; reflexivity.
-  - cbn [flat_map] in Hn. apply app_nil_both in Hn. destruct Hn as [Hnx Hnl].
-    inv_bind H0 as x1 Hx1 H0. inv_bind H0 as r2 Hr2 H0. inversion H0; subst l2.
-    rewrite (Hx Hnx _ Hx1), (IH Hnl _ Hr2), (rw_plain _ _ Hnx). reflexivity.
+  - inv_bind H0 as x1 Hx1 H0. inv_bind H0 as r2 Hr2 H0. inversion H0; subst l2.
+    cbn [map]. rewrite (Hx _ Hx1), (IH _ Hr2). reflexivity.
 Qed.
 
-Lemma check_plain_id : forall ctx e, names_of e = [] -> forall e1, check ctx e = Ok e1 -> e1 = e.
+Lemma check_resolve : forall ctx e e1, check ctx e = Ok e1 -> e1 = resolve (c_names ctx) e.
 Proof.
-  intros ctx e0. induction e0 using expr_induction; intros Hn ec Hc.
-  - cbn [names_of] in Hn. apply app_nil_both in Hn. destruct Hn as [Hnl Hnr].
-    rewrite check_bin_eq in Hc. inv_bind Hc as l1 Hl1 Hc. inv_bind Hc as r1 Hr1 Hc. inv_bind Hc as u Hu Hc.
-    inversion Hc; subst ec. rewrite (IHe0_1 Hnl _ Hl1), (IHe0_2 Hnr _ Hr1), !rw_plain by assumption. reflexivity.
+  intros ctx e0. induction e0 using expr_induction; intros ec Hc.
+  - rewrite check_bin_eq in Hc. inv_bind Hc as l1 Hl1 Hc. inv_bind Hc as r1 Hr1 Hc. inv_bind Hc as u Hu Hc.
+    inversion Hc; subst ec. cbn [resolve]. rewrite (IHe0_1 _ Hl1), (IHe0_2 _ Hr1). reflexivity.
   - cbn [Checker.check] in Hc. destruct f.
     + destruct (c_nokey ctx); inversion Hc; reflexivity.
     + destruct (c_novalue ctx); inversion Hc; reflexivity.
   - inversion Hc; reflexivity.
-  - cbn [names_of] in Hn. cbn [Checker.check] in Hc. inv_bind Hc as r2 Hr2 Hc. inv_bind Hr2 as r1 Hr1 Hr2.
+  - cbn [Checker.check] in Hc. inv_bind Hc as r2 Hr2 Hc. inv_bind Hr2 as r1 Hr1 Hr2.
     inversion Hr2; subst r2. destruct (ty_eqb _ TBool); inversion Hc; subst ec.
-    rewrite (IHe0 Hn _ Hr1), rw_plain by assumption. reflexivity.
+    cbn [resolve]. rewrite (IHe0 _ Hr1). reflexivity.
   - destruct e0; try (cbn [Checker.check] in Hc; discriminate Hc).
     rewrite check_call_eq in Hc. inv_bind Hc as a2 Ha2 Hc. inversion Hc; subst ec.
-    cbn [names_of] in Hn. rewrite (check_list_plain _ _ H Hn _ Ha2). reflexivity.
-  - discriminate Hn.
-  - discriminate Hn.
+    cbn [resolve]. rewrite (check_list_resolve _ _ H _ Ha2). reflexivity.
+  - inversion Hc; reflexivity.
+  - inversion Hc; reflexivity.
   - inversion Hc; reflexivity.
   - inversion Hc; reflexivity.
   - inversion Hc; reflexivity.
   - destruct l as [|x items]; [cbn in Hc; discriminate|].
     rewrite check_list_eq in Hc. inv_bind Hc as i2 Hi2 Hc. destruct i2 as [|y rest2]; [discriminate|].
     destruct (first_mistyped (rtype y) rest2); inversion Hc; subst ec.
-    cbn [names_of] in Hn. rewrite (check_list_plain _ _ H Hn _ Hi2). reflexivity.
-  - cbn [names_of] in Hn. cbn [Checker.check] in Hc. inv_bind Hc as l2 Hl2 Hc. inv_bind Hl2 as l1 Hl1 Hl2.
-    inversion Hl2; subst l2. inv_bind Hc as f2 Hf2 Hc. inv_bind Hc as u Hu Hc. destruct u. inversion Hc; subst ec.
-    pose proof (check_literal_back fo _ _ _ Hf2) as Hlit. pose proof (shape_literal _ _ Hu) as Hshl.
-    assert (Hfeq : e0_2 = f2) by (destruct f2; try contradiction; exact Hlit). subst f2.
-    rewrite (IHe0_1 Hn _ Hl1), rw_plain by assumption. reflexivity.
+    cbn [resolve]. rewrite (check_list_resolve _ _ H _ Hi2). reflexivity.
+  - cbn [Checker.check] in Hc. inv_bind Hc as l2 Hl2 Hc. inv_bind Hl2 as l1 Hl1 Hl2.
+    inversion Hl2; subst l2. inv_bind Hc as f2 Hf2 Hc. inv_bind Hc as u Hu Hc. inversion Hc; subst ec.
+    cbn [resolve]. rewrite (IHe0_1 _ Hl1), (IHe0_2 _ Hf2). reflexivity.
 Qed.
 
-(* ---------------------------------------------------------------- ValidateFields on plain fields *)
+(* a name-free tree is left as it is *)
+Lemma rw_plain : forall names e, names_of e = [] -> rewrite_name names e = e.
+Proof. intros names e H. destruct e; try reflexivity. discriminate H. Qed.
+
+(* ---------------------------------------------------------------- the type of a resolved
+   tree depends on the field table only through the types of the names the tree uses *)
+Definition tenv (names : list (string * expr)) (s : string) : option ty :=
+  option_map rtype (get_named names s).
+
+Lemma env_of_tenv : forall names s, env_of names s = option_map sty_of (tenv names s).
+Proof. intros names s. unfold env_of, tenv. destruct (get_named names s); reflexivity. Qed.
+
+Lemma rtype_rw_name : forall N1 N2 p s, tenv N1 s = tenv N2 s ->
+  rtype (rewrite_name N1 (EName p s)) = rtype (rewrite_name N2 (EName p s)).
+Proof.
+  intros N1 N2 p s H. unfold tenv in H. cbn [rewrite_name].
+  destruct (get_named N1 s) as [d1|], (get_named N2 s) as [d2|]; cbn [option_map] in H;
+    try discriminate H; [inversion H; assumption | reflexivity].
+Qed.
+
+Lemma rtype_resolve_agree : forall N1 N2 e,
+  (forall s, In s (names_of e) -> tenv N1 s = tenv N2 s) ->
+  rtype (rewrite_name N1 (resolve N1 e)) = rtype (rewrite_name N2 (resolve N2 e)) /\
+  rtype (resolve N1 e) = rtype (resolve N2 e).
+Proof.
+  intros N1 N2 e. induction e; intros Hn; cbn [resolve rewrite_name]; try (split; reflexivity).
+  - (* EBin *)
+    assert (Hl : rtype (rewrite_name N1 (resolve N1 e1)) = rtype (rewrite_name N2 (resolve N2 e1))).
+    { apply IHe1. intros s Hs. apply Hn. cbn [names_of]. apply in_or_app. left. exact Hs. }
+    cbn [rtype]. rewrite Hl. split; reflexivity.
+  - (* EName *)
+    split; [|reflexivity]. apply rtype_rw_name. apply Hn. left. reflexivity.
+Qed.
+
 Lemma field_named_get : forall fields s, field_named fields s = get_named fields s.
 Proof. induction fields as [|[n d] l IH]; intros s; [reflexivity|]. cbn. rewrite IH. reflexivity. Qed.
 
@@ -321,69 +362,168 @@ Proof.
   - destruct (IH _ _ H) as [n' Hn']. exists n'. right. exact Hn'.
 Qed.
 
-(* per field: Check under the statement's CheckCtx leaves it unchanged and succeeds, the
-   nested-aggregate test passes *)
-Definition field_ok (all : list (string * expr)) (nf : string * expr) : Prop :=
-  check (Cctx all false false) (snd nf) = Ok (snd nf) /\ aggr_field (snd nf) = Ok tt.
-
-(* re-pointing references changes nothing in a tree that holds none *)
-Lemma relink_plain : forall n d e, names_of e = [] -> relink n d e = e.
+(* ---------------------------------------------------------------- the linked field table *)
+Lemma get_named_map : forall (g : expr -> expr) l s,
+  get_named (map (fun nf => (fst nf, g (snd nf))) l) s = option_map g (get_named l s).
 Proof.
-  intros n d e. induction e using expr_induction; intros Hn; cbn [names_of] in Hn; cbn [relink];
-    try reflexivity; try discriminate.
-  - apply app_eq_nil in Hn. destruct Hn as [H1 H2]. rewrite IHe1, IHe2 by assumption. reflexivity.
-  - rewrite IHe by assumption. reflexivity.
-  - f_equal. induction H as [|a l Ha Hl IH]; [reflexivity|]. cbn [flat_map] in Hn.
-    apply app_eq_nil in Hn. destruct Hn as [H1 H2]. cbn [map]. rewrite Ha, IH by assumption. reflexivity.
-  - f_equal. induction H as [|a l Ha Hl IH]; [reflexivity|]. cbn [flat_map] in Hn.
-    apply app_eq_nil in Hn. destruct Hn as [H1 H2]. cbn [map]. rewrite Ha, IH by assumption. reflexivity.
-  - rewrite IHe1 by assumption. reflexivity.
+  intros g l s. induction l as [|[n d] l IH]; [reflexivity|]. cbn [map get_named fst snd].
+  destruct (String.eqb n s); [reflexivity|exact IH].
 Qed.
 
-Lemma relink_fields_plain : forall n d fs, fields_plain fs -> relink_fields n d fs = fs.
+Lemma get_named_link_S : forall raw k s,
+  get_named (link_n (S k) raw) s = option_map (resolve (link_n k raw)) (get_named raw s).
+Proof. intros. cbn [link_n]. apply get_named_map. Qed.
+
+Lemma get_named_link_none : forall raw k s, get_named raw s = None -> get_named (link_n k raw) s = None.
+Proof. intros raw k s H. destruct k; [exact H|]. rewrite get_named_link_S, H. reflexivity. Qed.
+
+Lemma tenv_link_S : forall raw k s d, get_named raw s = Some d ->
+  tenv (link_n (S k) raw) s = Some (rtype (resolve (link_n k raw) d)).
+Proof. intros raw k s d H. unfold tenv. rewrite get_named_link_S, H. reflexivity. Qed.
+
+Lemma tenv_link_none : forall raw k s, get_named raw s = None -> tenv (link_n k raw) s = None.
+Proof. intros raw k s H. unfold tenv. rewrite (get_named_link_none _ _ _ H). reflexivity. Qed.
+
+Section Ranked.
+Variable raw : list (string * expr).
+Variable rank : string -> nat.
+Hypothesis Hbound : forall s d, get_named raw s = Some d -> rank s < List.length raw.
+Hypothesis Hrank : forall s d s', get_named raw s = Some d -> In s' (names_of d) ->
+                                  get_named raw s' <> None -> rank s' < rank s.
+
+Definition below (k : nat) (s : string) : Prop := forall d, get_named raw s = Some d -> rank s < k.
+
+Lemma below_names : forall k s d s', get_named raw s = Some d -> rank s < S k ->
+  In s' (names_of d) -> below k s'.
 Proof.
-  intros n d fs H. induction H as [|[m f] l Hf Hl IH]; [reflexivity|]. cbn [relink_fields map fst snd] in *.
-  rewrite (relink_plain _ _ _ Hf). unfold relink_fields in IH. rewrite IH. reflexivity.
+  intros k s d s' Hs Hk Hin d' Hs'.
+  assert (Hne : get_named raw s' <> None) by (rewrite Hs'; discriminate).
+  pose proof (Hrank _ _ _ Hs Hin Hne). lia.
 Qed.
 
-Lemma relinked_done_plain : forall n d (done : list (string * expr)), fields_plain done ->
-  (if has_name n done then done else relink_fields n d done) = done.
-Proof. intros n d done H. destruct (has_name n done); [reflexivity|apply relink_fields_plain; exact H]. Qed.
+Lemma below_all : forall s, below (List.length raw) s.
+Proof. intros s d Hs. exact (Hbound _ _ Hs). Qed.
 
-Lemma validate_fields_plain : forall todo done r,
-  fields_plain done ->
-  fields_plain todo ->
-  validate_fields fo true done todo = Ok r ->
-  r = (done ++ todo)%list /\ Forall (field_ok (done ++ todo)%list) todo.
+(* the types of the linked table are final from the rank of a field on *)
+Lemma tenv_stable : forall k s, below k s -> tenv (link_n k raw) s = tenv (link_n (S k) raw) s.
 Proof.
-  induction todo as [|[n f] todo IH]; intros done r Hd Hp H; cbn [validate_fields] in H.
-  - inversion H; subst. rewrite app_nil_r. split; [reflexivity | constructor].
-  - inversion Hp as [|? ? Hf Hp']; subst. cbn [snd] in Hf.
-    inv_bind H as f2 Hf2 H. inv_bind H as u Hu H. destruct u.
-    pose proof (check_plain_id _ _ Hf _ Hf2) as Hid. subst f2.
-    rewrite (relinked_done_plain _ _ _ Hd) in H.
-    assert (Hd' : fields_plain (done ++ [(n, f)])%list).
-    { apply Forall_app. split; [exact Hd|]. constructor; [exact Hf|constructor]. }
-    destruct (IH _ _ Hd' Hp' H) as [Hr Hrest].
-    rewrite <- app_assoc in Hr, Hrest. cbn [app] in Hr, Hrest.
-    split; [exact Hr|]. constructor; [split; assumption | exact Hrest].
+  induction k as [|k IH]; intros s Hb.
+  - destruct (get_named raw s) as [d|] eqn:Hs.
+    + specialize (Hb _ Hs). lia.
+    + rewrite !tenv_link_none by exact Hs. reflexivity.
+  - destruct (get_named raw s) as [d|] eqn:Hs.
+    + rewrite (tenv_link_S _ k _ _ Hs), (tenv_link_S _ (S k) _ _ Hs). f_equal.
+      apply rtype_resolve_agree. intros s' Hin. apply IH.
+      exact (below_names k s d s' Hs (Hb _ Hs) Hin).
+    + rewrite !tenv_link_none by exact Hs. reflexivity.
 Qed.
 
-Lemma validate_fields_intro : forall todo done,
-  fields_plain done ->
-  fields_plain todo ->
-  Forall (field_ok (done ++ todo)%list) todo ->
-  validate_fields fo true done todo = Ok (done ++ todo)%list.
+Lemma tenv_link_final : forall s d, get_named raw s = Some d ->
+  tenv (link raw) s = Some (rtype (resolve (link raw) d)).
 Proof.
-  induction todo as [|[n f] todo IH]; intros done Hd Hp H; cbn [validate_fields].
-  - rewrite app_nil_r. reflexivity.
-  - inversion H as [|? ? [Hc Ha] Hrest]; subst. cbn [snd] in Hc, Ha.
-    inversion Hp as [|? ? Hf Hp']; subst. cbn [snd] in Hf.
-    rewrite Hc. cbn [bind]. rewrite Ha. cbn [bind].
-    rewrite (relinked_done_plain _ _ _ Hd).
-    assert (Hd' : fields_plain (done ++ [(n, f)])%list).
-    { apply Forall_app. split; [exact Hd|]. constructor; [exact Hf|constructor]. }
-    rewrite IH; [rewrite <- app_assoc; reflexivity | exact Hd' | exact Hp' | rewrite <- app_assoc; exact Hrest].
+  intros s d Hs. unfold link. rewrite (tenv_stable _ s (below_all s)). exact (tenv_link_S _ _ _ _ Hs).
+Qed.
+
+(* ---- the environment of the typing rules: what it is, from the rank of a name on *)
+Lemma select_env_none : forall k s, get_named raw s = None -> select_env_n fo raw k s = None.
+Proof.
+  intros k s H. destruct k; [reflexivity|]. cbn [select_env_n]. rewrite field_named_get, H. reflexivity.
+Qed.
+
+Lemma spec_stable : forall k s, below k s -> select_env_n fo raw k s = select_env_n fo raw (S k) s.
+Proof.
+  induction k as [|k IH]; intros s Hb.
+  - destruct (get_named raw s) as [d|] eqn:Hs.
+    + specialize (Hb _ Hs). lia.
+    + rewrite !select_env_none by exact Hs. reflexivity.
+  - destruct (get_named raw s) as [d|] eqn:Hs.
+    + cbn [select_env_n]. rewrite field_named_get, Hs.
+      rewrite (infer_agree all_allowed (select_env_n fo raw k) (select_env_n fo raw (S k)) d); [reflexivity|].
+      intros s' Hin. apply IH. exact (below_names k s d s' Hs (Hb _ Hs) Hin).
+    + rewrite !select_env_none by exact Hs. reflexivity.
+Qed.
+
+Lemma spec_stable_plus : forall m k s, below k s -> select_env_n fo raw k s = select_env_n fo raw (m + k) s.
+Proof.
+  induction m as [|m IH]; intros k s Hb; [reflexivity|].
+  rewrite (IH _ _ Hb). cbn [plus]. apply spec_stable. intros d Hs. specialize (Hb _ Hs). lia.
+Qed.
+
+(* a fixed point of the rules IS the environment *)
+Lemma spec_fix_unique : forall F : env,
+  (forall s, get_named raw s = None -> F s = None) ->
+  (forall s d, get_named raw s = Some d -> exists t, infer fo F all_allowed d = Some t /\ F s = Some t) ->
+  forall k s, below k s -> select_env_n fo raw k s = F s.
+Proof.
+  intros F Hnone Hfix. induction k as [|k IH]; intros s Hb.
+  - destruct (get_named raw s) as [d|] eqn:Hs.
+    + specialize (Hb _ Hs). lia.
+    + rewrite (Hnone _ Hs). reflexivity.
+  - destruct (get_named raw s) as [d|] eqn:Hs.
+    + cbn [select_env_n]. rewrite field_named_get, Hs.
+      rewrite (infer_agree all_allowed (select_env_n fo raw k) F d).
+      * destruct (Hfix _ _ Hs) as [t [Hi Hf]]. rewrite Hi, Hf. reflexivity.
+      * intros s' Hin. apply IH. exact (below_names k s d s' Hs (Hb _ Hs) Hin).
+    + rewrite (select_env_none _ _ Hs), (Hnone _ Hs). reflexivity.
+Qed.
+
+End Ranked.
+
+(* resolving a field that is not a bare field name gives a tree the callers' name resolution
+   leaves alone *)
+Lemma rw_resolve_field : forall raw N d,
+  (forall s, get_named raw s = None -> get_named N s = None) ->
+  match d with EName _ s => get_named raw s = None | _ => True end ->
+  rewrite_name N (resolve N d) = resolve N d.
+Proof.
+  intros raw N d HN Hd. destruct d; try reflexivity.
+  cbn [resolve rewrite_name]. rewrite (HN _ Hd). reflexivity.
+Qed.
+
+Lemma no_bare_in : forall fields n d, fields_no_bare fields -> In (n, d) fields ->
+  match d with EName _ s => get_named fields s = None | _ => True end.
+Proof. intros fields n d H Hin. unfold fields_no_bare in H. rewrite Forall_forall in H. exact (H _ Hin). Qed.
+
+(* ---------------------------------------------------------------- ValidateFields *)
+Definition field_rel (all : list (string * expr)) (nf nf2 : string * expr) : Prop :=
+  fst nf2 = fst nf /\ check (Cctx all false false) (snd nf) = Ok (snd nf2) /\ aggr_field (snd nf2) = Ok tt.
+
+Lemma validate_fields_spec : forall all todo r,
+  validate_fields fo true all todo = Ok r <-> Forall2 (field_rel all) todo r.
+Proof.
+  intros all. induction todo as [|[n f] todo IH]; intros r; cbn [validate_fields].
+  - split; [intros H; inversion H; constructor | intros H; inversion H; reflexivity].
+  - split.
+    + intros H. inv_bind H as f2 Hf2 H. inv_bind H as u Hu H. destruct u. inv_bind H as r' Hr' H.
+      inversion H; subst r. constructor; [repeat split; assumption | apply IH; exact Hr'].
+    + intros H. inversion H as [|? nf2 ? r' [Hn [Hc Ha]] Hrest]; subst. cbn [fst snd] in Hn, Hc.
+      rewrite Hc. cbn [bind]. rewrite Ha. cbn [bind].
+      replace (validate_fields fo true all todo) with (Ok r') by (symmetry; apply IH; exact Hrest).
+      cbn [bind]. destruct nf2 as [n2 f2]. cbn [fst snd] in *. subst n2. reflexivity.
+Qed.
+
+Lemma Forall2_in_l : forall {A B} (R : A -> B -> Prop) l l2 a,
+  Forall2 R l l2 -> In a l -> exists b, In b l2 /\ R a b.
+Proof.
+  induction 1 as [|x y l l2 Hxy _ IH]; intros Hin; [contradiction|].
+  destruct Hin as [->|Hin]; [exists y; split; [left; reflexivity|exact Hxy]|].
+  destruct (IH Hin) as [b [Hb Hr]]. exists b. split; [right; exact Hb|exact Hr].
+Qed.
+
+Lemma Forall2_weaken : forall {A B} (R R' : A -> B -> Prop) l l2,
+  (forall a b, R a b -> R' a b) -> Forall2 R l l2 -> Forall2 R' l l2.
+Proof. intros A B R R' l l2 H. induction 1; constructor; auto. Qed.
+
+Lemma Forall2_right : forall {A B} (R : A -> B -> Prop) (Q : B -> Prop) l l2,
+  Forall2 (fun a b => R a b /\ Q b) l l2 -> Forall Q l2.
+Proof. intros A B R Q l l2. induction 1 as [|a b l l2 [_ Hq] _ IH]; constructor; assumption. Qed.
+
+Lemma Forall2_total_l : forall {A B} (R : A -> B -> Prop) l,
+  (forall a, In a l -> exists b, R a b) -> exists l2, Forall2 R l l2.
+Proof.
+  induction l as [|a l IH]; intros H; [exists []; constructor|].
+  destruct (H a (or_introl eq_refl)) as [b Hb].
+  destruct (IH (fun x Hx => H x (or_intror Hx))) as [l2 Hl2]. exists (b :: l2). constructor; assumption.
 Qed.
 
 (* nested aggregates: the placement judgement implies the checker's test *)
@@ -428,6 +568,35 @@ Proof.
     apply andb_true_iff in H. destruct H as [_ H]. exact (placed_false_aggr_args _ H).
 Qed.
 
+(* resolving field names does not change the nested-aggregate test: it looks at binary
+   operators and calls only, and a name and a reference both pass *)
+Lemma aggr_arg_rw : forall N a, aggr_arg (rewrite_name N a) = aggr_arg a.
+Proof. intros N a. destruct a; try reflexivity. cbn [rewrite_name]. destruct (get_named N s); reflexivity. Qed.
+
+Lemma aggr_arg_resolve : forall N a, aggr_arg (resolve N a) = aggr_arg a.
+Proof.
+  intros N a. induction a; try reflexivity.
+  cbn [resolve aggr_arg]. rewrite !aggr_arg_rw, IHa1, IHa2. reflexivity.
+Qed.
+
+Lemma aggr_args_resolve : forall N args,
+  aggr_args (map (fun a => rewrite_name N (resolve N a)) args) = aggr_args args.
+Proof.
+  intros N args. induction args as [|a l IH]; [reflexivity|].
+  cbn [map aggr_args]. rewrite aggr_arg_rw, aggr_arg_resolve, IH. reflexivity.
+Qed.
+
+Lemma aggr_field_rw : forall N e, aggr_field (rewrite_name N e) = aggr_field e.
+Proof. intros N e. destruct e; try reflexivity. cbn [rewrite_name]. destruct (get_named N s); reflexivity. Qed.
+
+Lemma aggr_field_resolve : forall N e, aggr_field (resolve N e) = aggr_field e.
+Proof.
+  intros N e. induction e; try reflexivity.
+  - cbn [resolve aggr_field]. rewrite !aggr_field_rw, IHe1, IHe2. reflexivity.
+  - cbn [resolve aggr_field]. change (is_aggr_call (ECall pos e (map (fun a => rewrite_name N (resolve N a)) args)))
+      with (is_aggr_call (ECall pos e args)). rewrite aggr_args_resolve. reflexivity.
+Qed.
+
 (* ---------------------------------------------------------------- the statement *)
 Lemma calls_fields_ok : forall l, calls_fields l = Ok tt <-> Forall (fun nf => check_calls true (snd nf) = Ok tt) l.
 Proof.
@@ -451,139 +620,289 @@ Proof.
     + intros H. inversion H as [|? ? [f [Hg Hs]] Hl]; subst. rewrite Hg, Hs. cbn [bind]. apply IH. exact Hl.
 Qed.
 
-(* what the checker establishes for every field of a plain SELECT *)
-Definition field_typed (fields : list (string * expr)) (nf : string * expr) : Prop :=
-  infer fo (env_of fields) all_allowed (snd nf) = Some (sty_of (rtype (snd nf))) /\
-  calls_placed true (snd nf) = true.
+(* what the checker establishes for every field: checked against the linked table, it has the
+   type of its checked tree under the environment the table denotes *)
+Definition field_typed (all : list (string * expr)) (d : expr) : Prop :=
+  exists t, infer fo (env_of all) all_allowed d = Some t /\
+            sty_of (rtype (resolve all d)) = t.
 
-Lemma env_equal : forall fields, fields_plain fields ->
-  Forall (field_typed fields) fields ->
-  forall s, select_env fo fields s = env_of fields s.
+(* the linked table denotes the environment of the typing rules, provided every (first)
+   definition is typed under the table *)
+Lemma env_equal : forall fields,
+  fields_ranked fields -> fields_no_bare fields ->
+  (forall s d, get_named fields s = Some d -> field_typed (link fields) d) ->
+  forall s, select_env fo fields s = env_of (link fields) s.
 Proof.
-  intros fields Hp Ht s. unfold select_env, env_of. rewrite field_named_get.
-  destruct (get_named fields s) as [d|] eqn:Hg; [|reflexivity].
-  destruct (get_named_in _ _ _ Hg) as [n Hin].
-  unfold fields_plain in Hp. rewrite Forall_forall in Hp, Ht. specialize (Hp _ Hin). specialize (Ht _ Hin). cbn [snd] in Hp, Ht.
-  destruct Ht as [Hi _].
-  rewrite (infer_agree all_allowed no_env (env_of fields) d) by (intros s0 Hs0; rewrite Hp in Hs0; contradiction).
-  cbn [snd] in Hi. rewrite Hi. reflexivity.
+  intros fields [rank [Hbound Hrank]] Hnb Ht s. unfold select_env.
+  apply (spec_fix_unique fields rank Hrank (env_of (link fields))).
+  - intros s0 Hs0. unfold env_of, link. rewrite (get_named_link_none _ _ _ Hs0). reflexivity.
+  - intros s0 d Hs0. destruct (Ht _ _ Hs0) as [t [Hi Hty]]. exists t. split; [exact Hi|].
+    rewrite env_of_tenv, (tenv_link_final fields rank Hbound Hrank _ _ Hs0). cbn [option_map]. rewrite Hty. reflexivity.
+  - exact (below_all fields rank Hbound s).
 Qed.
+
+Lemma link_none : forall fields s, get_named fields s = None -> get_named (link fields) s = None.
+Proof. intros. unfold link. apply get_named_link_none. assumption. Qed.
 
 Theorem select_sound : forall fields w order s2,
   build_check fo true (SSelect fields w order) = Ok s2 ->
-  fields_plain fields -> stmt_no_refs (SSelect fields w order) = true ->
+  fields_ranked fields -> fields_no_bare fields ->
+  stmt_no_refs (SSelect fields w order) = true ->
   stmt_params_static s2 = true ->
   select_typed fo fields w order = true.
 Proof.
-  intros fields w order s2 H Hp Hnr Hps.
+  intros fields w order s2 H Hrk Hnb Hnr Hps.
   unfold build_check in H. inv_bind H as s1 Hs1 H. inv_bind H as u Hc H. inversion H; subst s2. clear H. destruct u.
-  cbn [check_stmt] in Hs1. unfold check_select in Hs1.
+  cbn [check_stmt] in Hs1. unfold check_select in Hs1. cbv zeta in Hs1.
   inv_bind Hs1 as u Hord Hs1. destruct u. inv_bind Hs1 as w1 Hw1 Hs1. inv_bind Hs1 as u Hb Hs1. destruct u.
   inv_bind Hs1 as f2 Hf2 Hs1. inversion Hs1; subst s1. clear Hs1.
-  destruct (validate_fields_plain _ _ _ (Forall_nil _) Hp Hf2) as [Hf2e Hfok]. cbn [app] in Hf2e, Hfok. subst f2.
+  apply validate_fields_spec in Hf2.
   cbn [check_stmt_calls] in Hc. inv_bind Hc as u Hcw Hcf. destruct u. apply calls_fields_ok in Hcf.
   cbn [stmt_params_static] in Hps. apply andb_true_iff in Hps. destruct Hps as [Hpsf Hpsw].
   cbn [stmt_no_refs] in Hnr. apply andb_true_iff in Hnr. destruct Hnr as [Hnrf Hnrw].
   apply where_bool_ok in Hb. apply check_order_ok in Hord.
-  (* every field is typed *)
-  assert (Hft : Forall (field_typed fields) fields).
-  { unfold fields_plain in Hp. rewrite Forall_forall in *. intros nf Hin. destruct (Hfok _ Hin) as [Hck _].
-    rewrite forallb_forall in Hpsf, Hnrf.
-    pose proof (sound_expr fo (Cctx fields false false) (snd nf) (Hnrf _ Hin) (snd nf) true Hck) as Hs.
-    cbn [c_names] in Hs. rewrite (rw_plain _ _ (Hp _ Hin)) in Hs.
-    exact (Hs (Hcf _ Hin) (Hpsf _ Hin)). }
-  pose proof (env_equal fields Hp Hft) as Henv.
+  set (all := link fields) in *.
+  (* every field is typed under the linked table *)
+  assert (Hft : forall nf, In nf fields ->
+            field_typed all (snd nf) /\ calls_placed true (snd nf) = true).
+  { intros nf Hin. destruct (Forall2_in_l _ _ _ _ Hf2 Hin) as [nf2 [Hin2 [Hn [Hck Hag]]]].
+    rewrite forallb_forall in Hpsf, Hnrf. rewrite Forall_forall in Hcf.
+    pose proof (check_resolve _ _ _ Hck) as Hres. cbn [c_names] in Hres.
+    assert (Hrw : rewrite_name all (snd nf2) = snd nf2).
+    { rewrite Hres. apply (rw_resolve_field fields); [apply link_none|].
+      destruct nf as [n d]. exact (no_bare_in _ _ _ Hnb Hin). }
+    pose proof (sound_expr fo (Cctx all false false) (snd nf) (Hnrf _ Hin) (snd nf2) true Hck) as Hs.
+    cbn [c_names] in Hs. rewrite Hrw in Hs.
+    destruct (Hs (Hcf _ Hin2) (Hpsf _ Hin2)) as [Hi Hpl].
+    split; [|exact Hpl]. exists (sty_of (rtype (snd nf2))). split; [exact Hi|]. rewrite Hres. reflexivity. }
+  assert (Henv : forall s, select_env fo fields s = env_of all s).
+  { apply env_equal; try assumption. intros s d Hs. destruct (get_named_in _ _ _ Hs) as [n Hin].
+    exact (proj1 (Hft _ Hin)). }
   (* the WHERE clause *)
-  pose proof (sound_expr fo (Cctx fields false false) w Hnrw w1 false Hw1 Hcw Hpsw) as [Hiw Hpw].
+  pose proof (sound_expr fo (Cctx all false false) w Hnrw w1 false Hw1 Hcw Hpsw) as [Hiw Hpw].
   cbn [c_names] in Hiw. rewrite Hb in Hiw.
   unfold select_typed. repeat (apply andb_true_iff; split).
   - apply forallb_forall. intros it Hin. rewrite Forall_forall in Hord.
     destruct (Hord _ Hin) as [f [Hg Hs]]. rewrite Henv. unfold env_of. rewrite Hg, scalar_sty_of. exact Hs.
-  - unfold is_type. rewrite (infer_agree all_allowed _ (env_of fields) w) by (intros; apply Henv).
-    change all_allowed with (mode_of (Cctx fields false false)). rewrite Hiw. reflexivity.
+  - unfold is_type. rewrite (infer_agree all_allowed _ (env_of all) w) by (intros; apply Henv).
+    change all_allowed with (mode_of (Cctx all false false)). rewrite Hiw. reflexivity.
   - exact Hpw.
-  - apply forallb_forall. intros nf Hin. rewrite Forall_forall in Hft. destruct (Hft _ Hin) as [Hi Hpl].
-    unfold any_type. rewrite (infer_agree all_allowed _ (env_of fields) (snd nf)) by (intros; apply Henv).
+  - apply forallb_forall. intros nf Hin. destruct (Hft _ Hin) as [[t [Hi _]] Hpl].
+    unfold any_type. rewrite (infer_agree all_allowed _ (env_of all) (snd nf)) by (intros; apply Henv).
     rewrite Hi, Hpl. reflexivity.
+Qed.
+
+(* ---- completeness: the environment of the rules is the one the linked table denotes, by
+   rounds (a well-typed definition is resolved to a tree of its type) *)
+Lemma env_rounds : forall fields rank,
+  (forall s d, get_named fields s = Some d -> rank s < List.length fields) ->
+  (forall s d s', get_named fields s = Some d -> In s' (names_of d) ->
+                  get_named fields s' <> None -> rank s' < rank s) ->
+  fields_no_bare fields ->
+  (forall s d, get_named fields s = Some d ->
+     exists t, infer fo (select_env fo fields) all_allowed d = Some t /\ calls_placed true d = true) ->
+  forall k s, k <= List.length fields -> below fields rank k s ->
+  env_of (link_n k fields) s = select_env_n fo fields k s.
+Proof.
+  intros fields rank Hbound Hrank Hnb Hty. induction k as [|k IH]; intros s Hk Hb.
+  - destruct (get_named fields s) as [d|] eqn:Hs; [specialize (Hb _ Hs); lia|].
+    unfold env_of. cbn [link_n select_env_n]. rewrite Hs. reflexivity.
+  - destruct (get_named fields s) as [d|] eqn:Hs.
+    2:{ rewrite (select_env_none _ _ _ Hs). unfold env_of. rewrite (get_named_link_none _ _ _ Hs). reflexivity. }
+    destruct (Hty _ _ Hs) as [t [Hi Hpl]].
+    assert (Hbn : forall s', In s' (names_of d) -> below fields rank k s')
+      by (intros s' Hin; exact (below_names fields rank Hrank k s d s' Hs (Hb _ Hs) Hin)).
+    (* the definition has the same type in round k *)
+    assert (Hik : infer fo (select_env_n fo fields k) all_allowed d = Some t).
+    { rewrite <- Hi. apply infer_agree. intros s' Hin. unfold select_env.
+      replace (List.length fields) with ((List.length fields - k) + k) by lia.
+      apply (spec_stable_plus fields rank Hrank). exact (Hbn _ Hin). }
+    assert (Hil : infer fo (env_of (link_n k fields)) all_allowed d = Some t).
+    { rewrite <- Hik. apply infer_agree. intros s' Hin. apply IH; [lia|exact (Hbn _ Hin)]. }
+    change all_allowed with (mode_of (Cctx (link_n k fields) false false)) in Hil.
+    destruct (complete_expr fo (Cctx (link_n k fields) false false) d t true Hil Hpl
+                (infer_no_same_field _ _ d t Hil)) as [d1 [Hd1 [_ [Htd _]]]].
+    pose proof (check_resolve _ _ _ Hd1) as Hres. cbn [c_names] in Hres, Htd.
+    destruct (get_named_in _ _ _ Hs) as [n Hin].
+    rewrite Hres, (rw_resolve_field fields) in Htd;
+      [|intros s0 Hs0; apply get_named_link_none; exact Hs0|exact (no_bare_in _ _ _ Hnb Hin)].
+    cbn [select_env_n]. rewrite field_named_get, Hs, Hik.
+    rewrite env_of_tenv, (tenv_link_S _ _ _ _ Hs). cbn [option_map]. rewrite Htd. reflexivity.
 Qed.
 
 Theorem select_complete : forall fields w order,
   select_typed fo fields w order = true ->
-  fields_plain fields -> stmt_no_same_field (SSelect fields w order) = true ->
+  fields_ranked fields -> fields_no_bare fields ->
+  stmt_no_same_field (SSelect fields w order) = true ->
   exists s2, build_check fo true (SSelect fields w order) = Ok s2.
 Proof.
-  intros fields w order H Hp Hsf.
+  intros fields w order H [rank [Hbound Hrank]] Hnb Hsf.
   unfold select_typed in H. apply andb_true_iff in H. destruct H as [H Hfl].
   apply andb_true_iff in H. destruct H as [H Hpw]. apply andb_true_iff in H. destruct H as [Hord Htw].
   cbn [stmt_no_same_field] in Hsf. apply andb_true_iff in Hsf. destruct Hsf as [Hsff Hsfw].
   rewrite forallb_forall in Hfl, Hsff.
-  (* every field is accepted unchanged and typed *)
-  assert (Hfields : forall nf, In nf fields ->
-            field_ok fields nf /\ check_calls true (snd nf) = Ok tt /\ field_typed fields nf).
+  set (all := link fields).
+  assert (Hty : forall nf, In nf fields ->
+            exists t, infer fo (select_env fo fields) all_allowed (snd nf) = Some t /\ calls_placed true (snd nf) = true).
   { intros nf Hin. specialize (Hfl _ Hin). apply andb_true_iff in Hfl. destruct Hfl as [Hany Hpl].
-    unfold any_type in Hany.
-    destruct (infer fo (select_env fo fields) all_allowed (snd nf)) as [t|] eqn:Hi; [|discriminate].
-    pose proof Hp as Hp'. unfold fields_plain in Hp'. rewrite Forall_forall in Hp'. pose proof (Hp' _ Hin) as Hpn.
-    rewrite (infer_agree all_allowed _ (env_of fields) (snd nf)) in Hi
-      by (intros s0 Hs0; rewrite Hpn in Hs0; contradiction).
-    destruct (complete_expr fo (Cctx fields false false) (snd nf) t true Hi Hpl (Hsff _ Hin))
-      as [d1 [Hd1 [Hcd [Htd _]]]].
-    pose proof (check_plain_id _ _ Hpn _ Hd1) as Hid. subst d1.
-    cbn [c_names] in Hcd, Htd. rewrite (rw_plain _ _ Hpn) in Hcd, Htd.
-    repeat split; try assumption.
-    - exact (placed_true_aggr_field _ Hpl).
-    - rewrite Hi, Htd. reflexivity. }
-  assert (Hft : Forall (field_typed fields) fields)
-    by (apply Forall_forall; intros nf Hin; apply (Hfields nf Hin)).
-  pose proof (env_equal fields Hp Hft) as Henv.
+    unfold any_type in Hany. destruct (infer fo (select_env fo fields) all_allowed (snd nf)) as [t|]; [|discriminate].
+    exists t. split; [reflexivity|exact Hpl]. }
+  assert (Henv : forall s, select_env fo fields s = env_of all s).
+  { intros s. symmetry. unfold all, link, select_env.
+    apply (env_rounds fields rank Hbound Hrank Hnb); [|lia|exact (below_all fields rank Hbound s)].
+    intros s0 d Hs0. destruct (get_named_in _ _ _ Hs0) as [n Hin]. exact (Hty _ Hin). }
+  (* every field is accepted *)
+  assert (Hfields : forall nf, In nf fields ->
+            exists nf2, field_rel all nf nf2 /\ check_calls true (snd nf2) = Ok tt).
+  { intros nf Hin. destruct (Hty _ Hin) as [t [Hi Hpl]].
+    rewrite (infer_agree all_allowed _ (env_of all) (snd nf)) in Hi by (intros; apply Henv).
+    change all_allowed with (mode_of (Cctx all false false)) in Hi.
+    destruct (complete_expr fo (Cctx all false false) (snd nf) t true Hi Hpl (Hsff _ Hin))
+      as [d1 [Hd1 [Hcd _]]].
+    pose proof (check_resolve _ _ _ Hd1) as Hres. cbn [c_names] in Hres, Hcd.
+    destruct nf as [n d]. cbn [snd] in *.
+    rewrite Hres, (rw_resolve_field fields) in Hcd; [|apply link_none|exact (no_bare_in _ _ _ Hnb Hin)].
+    exists (n, d1). split; [|rewrite Hres; exact Hcd].
+    repeat split; cbn [fst snd]; [exact Hd1|].
+    rewrite Hres, aggr_field_resolve. exact (placed_true_aggr_field _ Hpl). }
+  destruct (Forall2_total_l (fun nf nf2 => field_rel all nf nf2 /\ check_calls true (snd nf2) = Ok tt) fields Hfields)
+    as [f2 Hf2].
   (* WHERE *)
   unfold is_type in Htw.
   destruct (infer fo (select_env fo fields) all_allowed w) as [tw|] eqn:Hiw; [|discriminate].
   apply sty_eqb_eq in Htw. subst tw.
-  rewrite (infer_agree all_allowed _ (env_of fields) w) in Hiw by (intros; apply Henv).
-  destruct (complete_expr fo (Cctx fields false false) w SBool false Hiw Hpw Hsfw) as [w1 [Hw1 [Hcw [Htw _]]]].
+  rewrite (infer_agree all_allowed _ (env_of all) w) in Hiw by (intros; apply Henv).
+  change all_allowed with (mode_of (Cctx all false false)) in Hiw.
+  destruct (complete_expr fo (Cctx all false false) w SBool false Hiw Hpw Hsfw) as [w1 [Hw1 [Hcw [Htw _]]]].
   cbn [c_names] in Hcw, Htw. change SBool with (sty_of TBool) in Htw. apply sty_of_inj in Htw.
   (* ORDER BY *)
-  assert (Ho : check_order fields order = Ok tt).
+  assert (Ho : check_order all order = Ok tt).
   { apply check_order_ok. apply Forall_forall. intros it Hin. rewrite forallb_forall in Hord.
     specialize (Hord _ Hin). rewrite Henv in Hord. unfold env_of in Hord.
-    destruct (get_named fields (snd it)) as [f|]; [|discriminate].
+    destruct (get_named all (snd it)) as [f|]; [|discriminate].
     exists f. split; [reflexivity|]. rewrite <- scalar_sty_of. exact Hord. }
-  exists (SSelect fields (rewrite_name fields w1) order).
-  unfold build_check. cbn [check_stmt]. unfold check_select. rewrite Ho. cbn [bind]. rewrite Hw1. cbn [bind].
-  replace (where_bool (rewrite_name fields w1)) with (@Ok unit tt) by (symmetry; apply where_bool_ok; exact Htw).
+  exists (SSelect f2 (rewrite_name all w1) order).
+  unfold build_check. cbn [check_stmt]. unfold check_select. fold all. cbv zeta. rewrite Ho. cbn [bind]. rewrite Hw1. cbn [bind].
+  replace (where_bool (rewrite_name all w1)) with (@Ok unit tt) by (symmetry; apply where_bool_ok; exact Htw).
   cbn [bind].
-  rewrite (validate_fields_intro fields [] (Forall_nil _))
-    by (first [assumption | apply Forall_forall; intros nf Hin; apply (Hfields nf Hin)]).
-  cbn [bind app check_stmt_calls]. rewrite Hcw. cbn [bind].
-  replace (calls_fields fields) with (@Ok unit tt); [reflexivity|].
-  symmetry. apply calls_fields_ok. apply Forall_forall. intros nf Hin. apply (Hfields nf Hin).
+  replace (validate_fields fo true all fields) with (Ok f2).
+  2:{ symmetry. apply validate_fields_spec. eapply Forall2_weaken; [|exact Hf2]. intros a b [Hr _]. exact Hr. }
+  cbn [bind check_stmt_calls]. rewrite Hcw. cbn [bind].
+  replace (calls_fields f2) with (@Ok unit tt); [reflexivity|].
+  symmetry. apply calls_fields_ok.
+  exact (Forall2_right (field_rel all) (fun nf2 => check_calls true (snd nf2) = Ok tt) _ _ Hf2).
 Qed.
 
 (* ---------------------------------------------------------------- all statement forms *)
-Definition stmt_fields_plain (s : stmt) : Prop :=
-  match s with SSelect f _ _ => fields_plain f | _ => True end.
+(* acyclic references, no field that is only a field name *)
+Definition stmt_fields_ok (s : stmt) : Prop :=
+  match s with SSelect f _ _ => fields_ranked f /\ fields_no_bare f | _ => True end.
 
 Theorem build_check_sound : forall s s2,
   build_check fo true s = Ok s2 -> stmt_no_refs s = true -> stmt_params_static s2 = true ->
-  stmt_fields_plain s -> stmt_typed fo s = true.
+  stmt_fields_ok s -> stmt_typed fo s = true.
 Proof.
   intros s s2 H Hn Hps Hp. destruct s; cbn [stmt_typed].
-  - exact (select_sound _ _ _ _ H Hp Hn Hps).
+  - destruct Hp as [Hr Hb]. exact (select_sound _ _ _ _ H Hr Hb Hn Hps).
   - exact (put_sound fo _ _ H Hn Hps).
   - exact (remove_sound fo _ _ H Hn Hps).
   - exact (delete_sound fo _ _ H Hn Hps).
 Qed.
 
 Theorem build_check_complete : forall s,
-  stmt_typed fo s = true -> stmt_no_same_field s = true -> stmt_fields_plain s ->
+  stmt_typed fo s = true -> stmt_no_same_field s = true -> stmt_fields_ok s ->
   exists s2, build_check fo true s = Ok s2.
 Proof.
   intros s H Hs Hp. destruct s; cbn [stmt_typed] in H.
-  - exact (select_complete _ _ _ H Hp Hs).
+  - destruct Hp as [Hr Hb]. exact (select_complete _ _ _ H Hr Hb Hs).
   - exact (put_complete fo _ H Hs).
   - exact (remove_complete fo _ H Hs).
   - exact (delete_complete fo _ H Hs).
+Qed.
+
+(* the special case of field definitions that use no field names (the premise of the
+   theorems before fields could refer to fields) *)
+Definition stmt_fields_plain (s : stmt) : Prop :=
+  match s with SSelect f _ _ => fields_plain f | _ => True end.
+
+Lemma plain_fields_ok : forall fields, fields_plain fields -> fields_ranked fields /\ fields_no_bare fields.
+Proof.
+  intros fields Hp. unfold fields_plain in Hp. split.
+  - exists (fun _ => 0). split.
+    + intros s d Hs. destruct fields; [discriminate Hs|cbn [List.length]; lia].
+    + intros s d s' Hs Hin _. destruct (get_named_in _ _ _ Hs) as [n Hn].
+      rewrite Forall_forall in Hp. specialize (Hp _ Hn). cbn [snd] in Hp. rewrite Hp in Hin. contradiction.
+  - unfold fields_no_bare. eapply Forall_impl; [|exact Hp]. intros [n d] Hd. cbn [snd] in *.
+    destruct d; try exact I. discriminate Hd.
+Qed.
+
+Lemma stmt_plain_ok : forall s, stmt_fields_plain s -> stmt_fields_ok s.
+Proof. intros [f w o| | |] H; try exact I. exact (plain_fields_ok f H). Qed.
+
+(* ---------------------------------------------------------------- a computable witness of
+   [fields_ranked]: the candidate ranking "longest chain of references leaving the field",
+   computed in as many rounds as there are fields, and the two conditions tested on it *)
+Definition is_field (fields : list (string * expr)) (s : string) : bool :=
+  match get_named fields s with Some _ => true | None => false end.
+
+Fixpoint depth_n (fields : list (string * expr)) (k : nat) (s : string) : nat :=
+  match k with
+  | 0 => 0
+  | S k' =>
+      match get_named fields s with
+      | None => 0
+      | Some d =>
+          fold_right (fun s' m => if is_field fields s' then Nat.max (S (depth_n fields k' s')) m else m)
+                     0 (names_of d)
+      end
+  end.
+
+Definition ranked_b (fields : list (string * expr)) : bool :=
+  let n := List.length fields in
+  let rank := depth_n fields n in
+  forallb (fun nf =>
+             match get_named fields (fst nf) with
+             | None => true
+             | Some d =>
+                 Nat.ltb (rank (fst nf)) n &&
+                 forallb (fun s' => negb (is_field fields s') || Nat.ltb (rank s') (rank (fst nf))) (names_of d)
+             end) fields.
+
+Definition no_bare_b (fields : list (string * expr)) : bool :=
+  forallb (fun nf => match snd nf with EName _ s => negb (is_field fields s) | _ => true end) fields.
+
+Lemma get_named_name_in : forall fields s d, get_named fields s = Some d -> exists d', In (s, d') fields.
+Proof.
+  induction fields as [|[n d0] l IH]; intros s d H; [discriminate|]. cbn [get_named] in H.
+  destruct (String.eqb n s) eqn:E.
+  - apply String.eqb_eq in E. subst n. exists d0. left. reflexivity.
+  - destruct (IH _ _ H) as [d' Hd']. exists d'. right. exact Hd'.
+Qed.
+
+Lemma ranked_b_sound : forall fields, ranked_b fields = true -> fields_ranked fields.
+Proof.
+  intros fields H. unfold ranked_b in H. cbv zeta in H. rewrite forallb_forall in H.
+  exists (depth_n fields (List.length fields)).
+  assert (Hs : forall s d, get_named fields s = Some d ->
+            Nat.ltb (depth_n fields (List.length fields) s) (List.length fields) &&
+            forallb (fun s' => negb (is_field fields s') ||
+                               Nat.ltb (depth_n fields (List.length fields) s') (depth_n fields (List.length fields) s))
+                    (names_of d) = true).
+  { intros s d Hg. destruct (get_named_name_in _ _ _ Hg) as [d' Hin]. specialize (H _ Hin). cbn [fst] in H.
+    rewrite Hg in H. exact H. }
+  split.
+  - intros s d Hg. specialize (Hs _ _ Hg). apply andb_true_iff in Hs. apply Nat.ltb_lt. exact (proj1 Hs).
+  - intros s d s' Hg Hin Hne. specialize (Hs _ _ Hg). apply andb_true_iff in Hs. destruct Hs as [_ Hs].
+    rewrite forallb_forall in Hs. specialize (Hs _ Hin). apply orb_true_iff in Hs. destruct Hs as [Hs|Hs].
+    + unfold is_field in Hs. destruct (get_named fields s'); [discriminate Hs|contradiction].
+    + apply Nat.ltb_lt. exact Hs.
+Qed.
+
+Lemma no_bare_b_sound : forall fields, no_bare_b fields = true -> fields_no_bare fields.
+Proof.
+  intros fields H. unfold no_bare_b in H. rewrite forallb_forall in H. apply Forall_forall. intros nf Hin.
+  specialize (H _ Hin). destruct (snd nf); try exact I. unfold is_field in H.
+  destruct (get_named fields s); [discriminate H|reflexivity].
 Qed.
 
 (* ---------------------------------------------------------------- completeness without the
@@ -633,7 +952,7 @@ Proof.
 Qed.
 
 Theorem build_check_complete_typed : forall s,
-  stmt_typed fo s = true -> stmt_fields_plain s -> exists s2, build_check fo true s = Ok s2.
+  stmt_typed fo s = true -> stmt_fields_ok s -> exists s2, build_check fo true s = Ok s2.
 Proof. intros s H Hp. exact (build_check_complete s H (stmt_typed_nsf s H) Hp). Qed.
 
 End Sel.
